@@ -37,15 +37,24 @@ def _expand(base, seed, per):
 def run(ctx):
     quick = ctx.tier == 'quick'
     with tlc.Workdir() as wd:
-        gcfg = 'GEN_Memo_quick.cfg' if quick else 'GEN_Memo_thorough.cfg'
+        gcfg = 'GEN_Memo_quick.cfg'
         res, g = tlc.dump_graph(wd, 'MC_Memo.tla', gcfg, timeout=3000)
         ctx.add_tlc('E0+E1 generation ' + gcfg, res, gcfg)
         base = _base([[g.state(n) for n in p] for p in g.behaviours()])
         del g
-    items = _expand(base, ctx.seed, 1 if quick else 4)
-    if quick:
-        # a third of the histories per run, chosen by the seed (the thorough tier replays all of them, 4 kind assignments each)
-        items = [it for k, it in enumerate(items) if (k + ctx.seed) % 3 == 0]
+        items = _expand(base, ctx.seed, 1 if quick else 4)
+        if quick:
+            # a third of the histories per run, chosen by the seed (the thorough tier replays all of them, 4 kind assignments each)
+            items = [it for k, it in enumerate(items) if (k + ctx.seed) % 3 == 0]
+        else:
+            # deeper graph (3 evaluations, 2 mutations): one kind assignment per history, every eighth history by the seed
+            gcfg2 = 'GEN_Memo_thorough.cfg'
+            res, g = tlc.dump_graph(wd, 'MC_Memo.tla', gcfg2, timeout=6000)
+            ctx.add_tlc('E0+E1 generation ' + gcfg2, res, gcfg2)
+            base2 = _base([[g.state(n) for n in p] for p in g.behaviours()])
+            del g
+            deep = _expand(base2, ctx.seed + 7, 1)
+            items += [it for k, it in enumerate(deep) if (k + ctx.seed) % 8 == 0]
     ctx.check_ops(gcfg, items, ['Setup', 'Evaluate', 'UpdateComponents', 'UpdateFromData', 'MutateLeaf', 'SetLink', 'SetViewer'])
     used = set()
     for it in items:
@@ -66,7 +75,7 @@ def run(ctx):
         for d in r['div']:
             ctx.report(core.Divergence.from_json(d))
     ctx.sample({'kinds': items[len(items) // 2]['kinds'], 'acts': [s['act'] for s in items[len(items) // 2]['steps']]})
-    ctx.cov['exhaustive'] = not quick
+    ctx.cov['exhaustive'] = not quick      # of the <= 2 evaluations / <= 2 mutations graph; the deeper graph is sampled
     ctx.cov['rule'] = ('every interleaving of evaluations and mutations in the bound x leaf kinds assigned round-robin; non-trivial = '
                        'distinct histories with an evaluation, a later mutation and a final evaluation')
     ctx.assume('the oracle is a freshly built, never evaluated copy of the same abstract state (new Data, new selection objects)')
